@@ -28,6 +28,7 @@ type c18run struct {
 	errSince   [2]bool     // an ?OTR Error arrived while encrypted since lastTok was sent
 	txOrder    [2][]string // tokens in order of first verbatim transmission
 	resendSeen bool
+	queued     [2][]string // texts accepted under required encryption and not yet transmitted
 }
 
 // wireOf classifies the message a Receive call was given, using the observer's record of emitted units.
@@ -68,6 +69,9 @@ func (r *c18run) onCall(c *sim.Call) {
 		if tok := findToken(c.In); tok != "" {
 			r.lastTok[who], r.errSince[who] = tok, false
 			r.order[who] = append(r.order[who], tok)
+			if !c.EncBef && !r.finished[who] && r.pol[who]&sim.PolRequire != 0 && r.pol[who]&3 != 0 && len(c.Out) == 1 && ref.Classify(c.Out[0]) == ref.KQuery {
+				r.queued[who] = append(r.queued[who], tok)
+			}
 		}
 	}
 	sec := c.NewSec(p)
@@ -196,7 +200,27 @@ func (r *c18run) onCall(c *sim.Call) {
 		}
 		r.txOrder[who] = append(r.txOrder[who], tok)
 	}
+	if !c.EncBef && c.EncAft && r.s.Faults == 0 {
+		// the session starts: what was waiting for it goes out now, all of it
+		now := map[string]bool{}
+		for i := len(s.Seen) - n; i < len(s.Seen) && i >= 0; i++ {
+			if m := s.Seen[i]; m.Data != nil && m.Verified && m.Plain != nil {
+				now[findToken(m.Plain.Text)] = true
+			}
+		}
+		for _, tok := range r.queued[who] {
+			if !now[tok] && r.verbatim[who][tok] == 0 {
+				r.o.Fail("C18/queued-not-sent", "%s accepted text %s while waiting for encryption; the session has started and the text was not transmitted", p.Name, tok)
+				return
+			}
+		}
+		if len(r.queued[who]) > 0 {
+			r.o.Class("queued-texts-released")
+		}
+		r.queued[who] = nil
+	}
 	if c.Name == "End" {
+		r.queued[who] = nil
 		// End() closes the books: nothing said before it is "the most recent message" of whatever comes next,
 		// and a complaint of the peer about the old session is no licence to resend into a new one
 		r.lastTok[who], r.errSince[who] = "", false
@@ -247,6 +271,7 @@ func runC18(sc *LifeScript) *sim.Outcome {
 			// the peer restarts: its conversation object is replaced by a fresh one
 			np := sim.NewParty(sim.PartyOpts{Name: w.P[who].Name, Seed: sc.Cfg.SeedA*7 + uint64(len(s.Seen)*2+who) + 1000, Pol: r.pol[who], KeyI: w.P[who].KeyI})
 			w.P[who] = np
+			r.queued[who] = nil
 			s.nDraw[who] = 0
 			r.finished[who] = false
 			w.Q[who] = nil
